@@ -717,7 +717,7 @@ func c33() {
 
 	// Route (i): ForwardAndClose directly.
 	t0 := time.Now()
-	n := r.Pick(600, 20000)
+	n := r.Pick(500, 12000)
 	work := make(chan directCase, n)
 	rng := r.Rand("direct")
 	for i := 0; i < n; i++ {
